@@ -167,13 +167,22 @@ pub fn lower_stream(toks: &[STok]) -> Vec<u8> {
     out
 }
 
+/// Pad-count bytes: mostly 0..=5, but also the boundaries of every plausible counter width.
+pub fn pad_byte() -> impl Strategy<Value = u8> {
+    prop_oneof![
+        12 => 0u8..6,
+        3 => prop_oneof![Just(0x7fu8), Just(0x80), Just(0xef), Just(0xf0), Just(0xf1), Just(0xfc), Just(0xfe), Just(0xff)],
+        1 => any::<u8>(),
+    ]
+}
+
 pub fn mutation() -> impl Strategy<Value = Mutation> {
     prop_oneof![
         2 => any::<u16>().prop_map(Mutation::Drop),
         2 => (any::<u16>(), prop_oneof![Just(0u8), Just(0x1b), Just(0x1a), Just(1), any::<u8>()]).prop_map(|(x, b)| Mutation::Insert(x, b)),
         2 => (any::<u16>(), any::<u8>()).prop_map(|(x, b)| Mutation::Flip(x, b)),
         2 => any::<u16>().prop_map(Mutation::Truncate),
-        3 => (0u8..8).prop_map(Mutation::PadCount),
+        3 => pad_byte().prop_map(Mutation::PadCount),
         3 => (-3i8..4, prop_oneof![Just(0u8), Just(0x1b), any::<u8>()]).prop_map(|(d, b)| Mutation::ShiftEnd(d, b)),
         1 => Just(Mutation::DupStart),
         3 => (0u8..9, 0u8..8).prop_map(|(k, p)| Mutation::ZerosBeforeEnd(k, p)),
@@ -217,8 +226,8 @@ pub fn stok(big: bool) -> BoxedStrategy<STok> {
         3 => prop_oneof![Just(0x1au8), Just(1), Just(0), Just(0x1b), Just(0xa5)].prop_map(STok::Byte),
         2 => (prop_oneof![Just(0u8), Just(0xaa), Just(0x01), Just(0x1a), any::<u8>()], noise_len(max_noise)).prop_map(|(byte, len)| STok::Noise { byte, len }),
         2 => (1usize..8).prop_map(STok::PartialStart),
-        8 => (0u8..6, 0u8..3, prop::bool::weighted(0.7), prop::bool::weighted(0.6)).prop_map(|(pad, from, align, honest_pad)| STok::End { pad, from, align, honest_pad }),
-        1 => (0u8..5, any::<u8>(), any::<u8>()).prop_map(|(pad, c1, c2)| STok::EndGarbage { pad, c1, c2 }),
+        8 => (pad_byte(), 0u8..3, prop::bool::weighted(0.7), prop::bool::weighted(0.6)).prop_map(|(pad, from, align, honest_pad)| STok::End { pad, from, align, honest_pad }),
+        1 => (pad_byte(), any::<u8>(), any::<u8>()).prop_map(|(pad, c1, c2)| STok::EndGarbage { pad, c1, c2 }),
     ]
     .boxed()
 }
@@ -228,7 +237,7 @@ pub fn stream(max_tokens: usize, big: bool) -> impl Strategy<Value = Vec<STok>> 
     vec(stok(big), 1..max_tokens.max(2))
 }
 
-/// The 12-token alphabet of the exhaustive part of C02 (and friends).
+/// The 13-token alphabet of the exhaustive part of C02 (and friends).
 pub fn small_alphabet() -> Vec<STok> {
     vec![
         STok::Start,
@@ -243,6 +252,7 @@ pub fn small_alphabet() -> Vec<STok> {
         STok::End { pad: 1, from: 0, align: false, honest_pad: false },
         STok::End { pad: 3, from: 1, align: false, honest_pad: false },
         STok::End { pad: 4, from: 0, align: false, honest_pad: false },
+        STok::End { pad: 0xf0, from: 0, align: false, honest_pad: false },
     ]
 }
 
@@ -254,6 +264,28 @@ pub fn nth_token_seq(alpha: &[STok], len: usize, mut idx: u64) -> Vec<STok> {
         idx /= alpha.len() as u64;
     }
     v
+}
+
+/// Number of token sequences of length 1..=maxlen over the small alphabet.
+pub fn small_seq_total(maxlen: usize) -> u64 {
+    let a = small_alphabet().len() as u64;
+    (1..=maxlen).map(|l| a.pow(l as u32)).sum()
+}
+
+/// The idx-th token sequence (0-based) of length 1..=maxlen over the small alphabet, lowered to bytes.
+pub fn small_seq_bytes(alpha: &[STok], maxlen: usize, idx: u64) -> Vec<u8> {
+    let a = alpha.len() as u64;
+    let mut k = idx;
+    let mut len = 1;
+    for l in 1..=maxlen {
+        let n = a.pow(l as u32);
+        if k < n {
+            len = l;
+            break;
+        }
+        k -= n;
+    }
+    lower_stream(&nth_token_seq(alpha, len, k))
 }
 
 // ---------------------------------------------------------------------------------------
